@@ -495,10 +495,12 @@ func guarded(f func()) (res string) {
 		f()
 		done <- ""
 	}()
+	wd := time.NewTimer(20 * time.Second)
+	defer wd.Stop()
 	select {
 	case r := <-done:
 		return r
-	case <-time.After(20 * time.Second):
+	case <-wd.C:
 		dead = true
 		lib.Finding("*", "reasm:hang:"+curOp, "operation did not return within 20 s")
 		return "hang"
